@@ -177,7 +177,18 @@ func collectorCases(w *casefile.Writer, r *rng.R, n int) {
 		}
 		blk := r.Intn(6)
 		first := 1 + r.Intn(40)
-		out := col.Run(metas, uint32(blk), dofilter, app, uint32(first))
+		var out frac.VerifC17Coll
+		var perr any
+		func() {
+			defer func() { perr = recover() }()
+			out = col.Run(metas, uint32(blk), dofilter, app, uint32(first))
+		}()
+		if perr != nil {
+			w.Violate("collector-panic", fmt.Sprintf("the bulk collector panicked: %v", perr),
+				map[string]any{"docs": docs, "keep": keep, "filter": dofilter, "block": blk, "first_lid": first, "case_number": k})
+			col = frac.VerifC17NewCollector()
+			continue
+		}
 
 		var ms []string
 		for _, d := range docs {
@@ -474,7 +485,17 @@ func runHistory(h History) (res histResult) {
 		}
 	}
 	fracbuild.Close(fm)
+	release(fm)
 	return
+}
+
+// release closes the files and stops the goroutines of every fraction of a manager whose data
+// directory is about to be removed.
+func release(fm *fracmanager.FracManager) {
+	defer func() { _ = recover() }()
+	for _, f := range fm.GetAllFracs() {
+		f.Suicide()
+	}
 }
 
 func coqStep(s Step) string {
@@ -662,7 +683,7 @@ func main() {
 	}
 	nColl, nHist := 600, 330
 	if *tier == "thorough" {
-		nColl, nHist = 12000, 6000
+		nColl, nHist = 12000, 2500
 	}
 	r := rng.New(*seed)
 	collectorCases(w, r.Fork(), nColl)
